@@ -34,7 +34,9 @@ ITEM_BUDGET_S = 1800
 MODEL = "parameters(p=0.5, q=1.5)\nstates(x=1.0, y=2.0)\nunused = p*q\ni = 0.5*x + p\ndx_dt = i*q - x*y\ndy_dt = p*x - 0.75*y + i\n"
 BAD_MODELS = {"invalid-missing-derivative": "parameters(p=0.5)\nstates(x=1.0, y=2.0)\ndx_dt = p - x\n",
               "invalid-undefined-symbol": "parameters(p=0.5)\nstates(x=1.0)\ndx_dt = nope - x\n",
-              "invalid-syntax": "parameters(p=0.5\nstates(x=1.0)\ndx_dt = = x\n"}
+              "invalid-syntax": "parameters(p=0.5\nstates(x=1.0)\ndx_dt = = x\n",
+              # loads, but code generation refuses it (cyclic intermediates)
+              "invalid-cycle": "parameters(p=0.5)\nstates(x=1.0)\na = b + p\nb = a*x\ndx_dt = b - x\n"}
 
 SCHEMES = [[], ["explicit_euler"], ["generalized_rush_larsen"], ["hybrid_rush_larsen"], ["forward_explicit_euler"], ["forward_generalized_rush_larsen"],
            ["explicit_euler", "generalized_rush_larsen"], ["generalized_rush_larsen", "explicit_euler"], ["hybrid_rush_larsen", "explicit_euler"],
@@ -269,6 +271,9 @@ def run_item(item):
                     model = os.path.join(d, "bad.ode")
                     if text is not None:
                         open(model, "w").write(text)
+                    # an output of an earlier successful run must survive a failing run untouched
+                    for nm in ("bad.py", "bad.h", "bad.c", "out.py"):
+                        open(os.path.join(d, nm), "w").write("previous good output\n")
                     before = listing(d)
                     code, output, exc = invoke([cmd, model] + extra, d)
                     after = listing(d)
